@@ -90,6 +90,37 @@ pub fn gen_c02(rng: &mut Rng, thorough: bool) -> Vec<Tagged> {
         out.push((format!("{}-boundary-fwd", kind), Case::Net(spec.clone(), NetCmd::Forward(x.clone()))));
         out.push((format!("{}-boundary-fwd-flatinput", kind), Case::Net(spec, NetCmd::Forward(flat_version(&x)))));
     }
+    // threshold sweep: extents around the powers of two at which a blocked / vectorised / parallel
+    // fast path would switch on (dense inputs and outputs, channels, filters, spatial extents)
+    for &(i, o_) in &[(7usize, 9usize), (8, 8), (9, 7), (63, 2), (64, 3), (65, 2), (127, 1), (128, 2), (129, 1), (2, 63), (3, 64), (2, 65), (1, 128), (2, 129), (33, 33)] {
+        let d = Simple::Dense { out: o_, act: Act::Linear, bias: true, dropout: None };
+        let mut spec = NetSpec::new(Sh::Flat(i).to_shape());
+        spec.weights = Some(vec![LW::One(rand_w(rng, &d, Sh::Flat(i), 1))]);
+        spec.layers.push(LayerSpec::One(d));
+        out.push(("dense-threshold-fwd".into(), Case::Net(spec, NetCmd::Forward(rand_input(rng, Sh::Flat(i), 0)))));
+    }
+    let thr: Vec<(Sh, Simple)> = vec![
+        (Sh::Sp(8, 3, 3), Simple::Conv { filters: 9, kernel: (2, 2), stride: (1, 1), padding: (0, 0), dilation: (1, 1), act: Act::Linear, dropout: None }),
+        (Sh::Sp(9, 2, 3), Simple::Conv { filters: 8, kernel: (1, 2), stride: (1, 1), padding: (0, 1), dilation: (1, 1), act: Act::Linear, dropout: None }),
+        (Sh::Sp(17, 2, 2), Simple::Conv { filters: 2, kernel: (2, 2), stride: (1, 1), padding: (1, 1), dilation: (1, 1), act: Act::Linear, dropout: None }),
+        (Sh::Sp(1, 33, 17), Simple::Conv { filters: 1, kernel: (3, 3), stride: (2, 1), padding: (1, 0), dilation: (1, 1), act: Act::Linear, dropout: None }),
+        (Sh::Sp(1, 16, 16), Simple::Conv { filters: 2, kernel: (3, 3), stride: (1, 1), padding: (1, 1), dilation: (1, 1), act: Act::Linear, dropout: None }),
+        (Sh::Sp(9, 2, 2), Simple::Deconv { filters: 8, kernel: (2, 2), stride: (2, 2), padding: (0, 0), act: Act::Linear, dropout: None }),
+        (Sh::Sp(1, 17, 9), Simple::Deconv { filters: 1, kernel: (3, 2), stride: (1, 2), padding: (1, 0), act: Act::Linear, dropout: None }),
+        (Sh::Sp(9, 4, 4), Simple::Maxpool { kernel: (2, 2), stride: (2, 2) }),
+        (Sh::Sp(1, 33, 17), Simple::Maxpool { kernel: (3, 2), stride: (2, 1) }),
+        (Sh::Sp(2, 1, 65), Simple::Maxpool { kernel: (1, 2), stride: (1, 2) }),
+    ];
+    for (inp, l) in thr {
+        if out_shape(&l, inp).is_none() {
+            continue;
+        }
+        let mut spec = NetSpec::new(inp.to_shape());
+        spec.weights = Some(vec![LW::One(rand_w(rng, &l, inp, 1))]);
+        let kind = l.kind();
+        spec.layers.push(LayerSpec::One(l));
+        out.push((format!("{}-threshold-fwd", kind), Case::Net(spec, NetCmd::Forward(rand_input(rng, inp, 0)))));
+    }
     // chains of padded convolutions whose PADDED inputs have the same size although the paddings
     // differ (6x6 p0 -> 4x4 p1; 2x2 p2 -> 4x4 p1 -> 4x4 p1 ...): every layer pads ITS input with zeros,
     // whatever was computed before on the same thread; consecutive cases repeat the pattern
@@ -366,6 +397,32 @@ pub fn gen_c01(rng: &mut Rng, thorough: bool) -> Vec<Tagged> {
         spec.weights = Some(vec![LW::One(rand_w(rng, &d, Sh::Flat(n), 1))]);
         spec.layers.push(LayerSpec::One(d));
         out.push(("dense-wide-layer-bwd".into(), Case::Net(spec, NetCmd::LayerBackward(0, rand_input(rng, Sh::Flat(n), 2), rand_input(rng, Sh::Flat(3), 1)))));
+    }
+    // threshold sweep (see gen_c02), layer-level backward
+    let thr: Vec<(Sh, Simple)> = vec![
+        (Sh::Sp(8, 3, 3), Simple::Conv { filters: 9, kernel: (2, 2), stride: (1, 1), padding: (0, 0), dilation: (1, 1), act: Act::Tanh, dropout: None }),
+        (Sh::Sp(9, 2, 3), Simple::Conv { filters: 8, kernel: (1, 2), stride: (1, 1), padding: (0, 1), dilation: (1, 1), act: Act::Linear, dropout: None }),
+        (Sh::Sp(17, 2, 2), Simple::Conv { filters: 2, kernel: (2, 2), stride: (1, 1), padding: (1, 1), dilation: (1, 1), act: Act::Linear, dropout: None }),
+        (Sh::Sp(1, 17, 9), Simple::Conv { filters: 1, kernel: (3, 3), stride: (2, 1), padding: (1, 0), dilation: (1, 1), act: Act::Sigmoid, dropout: None }),
+        (Sh::Sp(9, 2, 2), Simple::Deconv { filters: 8, kernel: (2, 2), stride: (2, 2), padding: (0, 0), act: Act::Linear, dropout: None }),
+        (Sh::Sp(1, 9, 5), Simple::Deconv { filters: 1, kernel: (3, 2), stride: (1, 2), padding: (1, 0), act: Act::Tanh, dropout: None }),
+        (Sh::Sp(9, 4, 4), Simple::Maxpool { kernel: (2, 2), stride: (2, 2) }),
+        (Sh::Sp(1, 17, 9), Simple::Maxpool { kernel: (3, 2), stride: (2, 1) }),
+    ];
+    for (inp, l) in thr {
+        let osh = match out_shape(&l, inp) { Some(s) => s, None => continue };
+        let mut spec = NetSpec::new(inp.to_shape());
+        spec.weights = Some(vec![LW::One(rand_w(rng, &l, inp, 1))]);
+        let kind = l.kind();
+        spec.layers.push(LayerSpec::One(l));
+        out.push((format!("{}-threshold-layer-bwd", kind), Case::Net(spec, NetCmd::LayerBackward(0, rand_input(rng, inp, 2), rand_input(rng, osh, 1)))));
+    }
+    for &(i, o_) in &[(63usize, 2usize), (64, 3), (65, 2), (129, 1), (2, 63), (3, 64), (2, 129), (33, 33)] {
+        let d = Simple::Dense { out: o_, act: Act::Sigmoid, bias: true, dropout: None };
+        let mut spec = NetSpec::new(Sh::Flat(i).to_shape());
+        spec.weights = Some(vec![LW::One(rand_w(rng, &d, Sh::Flat(i), 1))]);
+        spec.layers.push(LayerSpec::One(d));
+        out.push(("dense-threshold-layer-bwd".into(), Case::Net(spec, NetCmd::LayerBackward(0, rand_input(rng, Sh::Flat(i), 2), rand_input(rng, Sh::Flat(o_), 1)))));
     }
     // many OUTPUTS (the input gradient goes through the transposed weight matrix), layer level and inside a network
     for &m in &[64usize, 65, 70, 130] {
